@@ -27,6 +27,19 @@ theorem or_wf {a o : Bits} (ha : a.WF) (ho : o.WF) : (a.or o).WF := by
   · exact Nat.lt_of_lt_of_le ha (Nat.pow_le_pow_right (by omega) (Nat.le_max_left _ _))
   · exact Nat.lt_of_lt_of_le ho (Nat.pow_le_pow_right (by omega) (Nat.le_max_right _ _))
 
+/-- `x ^ mask` on a well-formed payload is `2^n - 1 - x` -/
+theorem xor_mask (b : Bits) (hb : b.WF) : b.ival ^^^ b.mask = 2 ^ b.size - 1 - b.ival := by
+  apply Nat.eq_of_testBit_eq
+  intro i
+  simp only [mask, Nat.testBit_xor, Nat.testBit_two_pow_sub_one]
+  by_cases hi : i < b.size
+  · have := Nat.testBit_two_pow_sub_succ hb i
+    simp only [hi, decide_true, Bool.true_and] at this
+    have e : 2 ^ b.size - 1 - b.ival = 2 ^ b.size - (b.ival + 1) := by omega
+    rw [e, this]; simp [hi]
+  · have hlt : 2 ^ b.size - 1 - b.ival < 2 ^ b.size := by have := Nat.two_pow_pos b.size; omega
+    simp [hi, testBit_of_lt hlt (Nat.le_of_not_lt hi), wf_testBit hb (Nat.le_of_not_lt hi)]
+
 /-! ### rotations (`rol!`/`ror!` are the bodies of operators.py `rol`/`ror`) -/
 
 theorem rot_index_sub {n k i : Nat} (hk : k ≤ n) (hi : i < n) :
